@@ -1,6 +1,6 @@
 (* C24 — QUIC transport parameters and varints encode losslessly.
    Property theorems only; each closed by a lemma from Proofs/VarintP.v. *)
-From UV Require Import Base.Common Model.Varint Proofs.VarintP.
+From UV Require Import Base.Common Model.Varint Model.VarintTo Proofs.VarintP Proofs.VarintToP.
 
 Definition two62 : N := 4611686018427387904.
 
@@ -65,6 +65,30 @@ Theorem C24_tp_refuse : forall tps, Exists (fun p => two62 <= fst p) tps ->
 Proof. exact marshal_panics. Qed.
 Print Assumptions C24_tp_refuse.
 
+(* The same with a destination buffer that already holds data: the caller's bytes come back untouched,
+   followed by the encoding (Append) ... *)
+Theorem C24_append_to : forall b x r, x < two62 ->
+  exists e, append_to b x = Ok (b ++ e) /\ append x = Ok e /\ read (e ++ r) = Some (x, r).
+Proof. exact append_to_spec. Qed.
+Print Assumptions C24_append_to.
+
+(* ... and by exactly w bytes decoding to x, for every admissible width w >= Len(x) (AppendWithLen). *)
+Theorem C24_withlen_to : forall b x l w r, vlen x = Ok l -> l <= w -> (w = 1 \/ w = 2 \/ w = 4 \/ w = 8) ->
+  exists e, append_with_len_to b x w = Ok (b ++ e) /\ N.of_nat (length e) = w /\ read (e ++ r) = Some (x, r).
+Proof. exact withlen_to_spec. Qed.
+Print Assumptions C24_withlen_to.
+
+Theorem C24_to_refuse : forall b x w, two62 <= x ->
+  is_panic (append_to b x) = true /\ is_panic (append_with_len_to b x w) = true.
+Proof. intros b x w H. split; [exact (append_to_refuse b x H)|exact (withlen_to_refuse b x w H)]. Qed.
+Print Assumptions C24_to_refuse.
+
+(* Marshal as written (buffer threaded through the loop) = the body of marshal_tps after the caller's bytes *)
+Theorem C24_marshal_threaded : forall tps b,
+  marshal_tps_to b tps = (do body <- marshal_tps tps; Ok (b ++ body)).
+Proof. exact marshal_tps_to_spec. Qed.
+Print Assumptions C24_marshal_threaded.
+
 (* Non-vacuity: concrete inputs meeting each hypothesis. *)
 Example C24_ex_roundtrip : read (match append 16384 with Ok b => b | _ => [] end ++ [7]) = Some (16384, [7]).
 Proof. vm_compute. reflexivity. Qed.
@@ -72,3 +96,5 @@ Example C24_ex_tp : Forall tp_ok [(27, [1;2;3]); (16741339, []); (46116860184273
 Proof. repeat constructor; cbn; lia. Qed.
 Example C24_ex_withlen : vlen 300 = Ok 2 /\ 2 < 8.
 Proof. split; [reflexivity | lia]. Qed.
+Example C24_ex_withlen_to : append_with_len_to [222; 173] 37 4 = Ok [222; 173; 128; 0; 0; 37] /\ vlen 37 = Ok 1 /\ 1 <= 4.
+Proof. split; [vm_compute; reflexivity|]. split; [reflexivity|lia]. Qed.
